@@ -10,7 +10,11 @@ package main
 // a package in scope that cannot be parsed at all makes the generator fail loudly.
 //
 // Output (lean/RisorModel/Generated/C09.lean):
-//   vars        package-level variables mutable in effect (kind: state | lock)
+//   vars        package-level variables mutable in effect (kind: state | lock): assigned outside
+//               init; map/slice/pointer/chan; non-error interface values; structs/arrays stored in
+//               the variable that carry references or are sync types (sync.Pool, sync.Map,
+//               bytes.Buffer, ...); anything whose storage is written in place, sliced, has its
+//               address taken or a pointer-receiver method called on it
 //   sites       per (function, variable-or-field): read/write, interprocedural must-hold
 //               lockset, phase (init = only during package initialisation)
 //   codeCalls   methods of compiler.Code / compiler.Function called from vm and object
@@ -190,6 +194,79 @@ func c09NamedStruct(t types.Type) *types.Named {
 	}
 }
 
+// c09IsSyncType: a type of package sync or sync/atomic other than the two mutexes (Pool, Map,
+// Once, WaitGroup, Cond, atomic.Value, ...): internally synchronised shared state.
+func c09IsSyncType(t types.Type) bool {
+	if p, ok := t.(*types.Pointer); ok {
+		t = p.Elem()
+	}
+	n, ok := t.(*types.Named)
+	if !ok || n.Obj().Pkg() == nil {
+		return false
+	}
+	pp := n.Obj().Pkg().Path()
+	return (pp == "sync" || pp == "sync/atomic") && !c09IsMutex(t)
+}
+
+// c09HoldsRefs: a value of this type (a struct or array stored IN the variable, not behind a
+// pointer) carries references to heap state or a function/interface value: sync.Pool,
+// sync.Map, bytes.Buffer, a struct with a slice/map field ...  Calling a method on such a
+// package-level variable, or handing out a part of it, shares that state between evaluations.
+func c09HoldsRefs(t types.Type, depth int) bool {
+	if depth > 6 {
+		return true
+	}
+	switch x := t.Underlying().(type) {
+	case *types.Map, *types.Slice, *types.Pointer, *types.Chan, *types.Signature, *types.Interface:
+		return true
+	case *types.Basic:
+		return x.Kind() == types.UnsafePointer
+	case *types.Struct:
+		for i := 0; i < x.NumFields(); i++ {
+			if c09HoldsRefs(x.Field(i).Type(), depth+1) {
+				return true
+			}
+		}
+	case *types.Array:
+		return c09HoldsRefs(x.Elem(), depth+1)
+	}
+	return false
+}
+
+func c09IsErrorType(t types.Type) bool {
+	return types.Identical(t, types.Universe.Lookup("error").Type())
+}
+
+// c09RootIdent: the identifier at the root of a chain of field selections / index expressions
+// that stays inside the variable's own storage (x, x.f, x[i], x.f[i].g, (x)).
+func c09RootIdent(info *types.Info, e ast.Expr) *ast.Ident {
+	for {
+		switch x := e.(type) {
+		case *ast.Ident:
+			return x
+		case *ast.ParenExpr:
+			e = x.X
+		case *ast.SelectorExpr:
+			if sel := info.Selections[x]; sel != nil && sel.Kind() == types.FieldVal && !sel.Indirect() {
+				e = x.X
+				continue
+			}
+			return nil
+		case *ast.IndexExpr:
+			tv, ok := info.Types[x.X]
+			if !ok {
+				return nil
+			}
+			if _, isArr := tv.Type.Underlying().(*types.Array); !isArr {
+				return nil
+			}
+			e = x.X
+		default:
+			return nil
+		}
+	}
+}
+
 func c09Generate(repo string) string {
 	ctx := build.Default
 	ctx.CgoEnabled = false
@@ -219,6 +296,8 @@ func c09Generate(repo string) string {
 	}
 	allVars := map[*types.Var]*varInfo{}
 	assignedOutside := map[*types.Var]bool{}
+	mutatedInPlace := map[*types.Var]bool{} // field/element written, address taken, or pointer-receiver method called
+	ptrMethodRecv := map[ast.Expr]bool{}    // receiver expressions of such method calls
 	for _, p := range scope {
 		sc := p.pkg.Scope()
 		for _, n := range sc.Names() {
@@ -237,6 +316,14 @@ func c09Generate(repo string) string {
 				if !ok || fd.Body == nil || (fd.Recv == nil && fd.Name.Name == "init") {
 					continue
 				}
+				pkgVarAt := func(e ast.Expr) *types.Var {
+					if id := c09RootIdent(p.info, e); id != nil {
+						if v, ok := p.info.Uses[id].(*types.Var); ok && allVars[v] != nil {
+							return v
+						}
+					}
+					return nil
+				}
 				ast.Inspect(fd.Body, func(n ast.Node) bool {
 					switch s := n.(type) {
 					case *ast.AssignStmt:
@@ -245,12 +332,58 @@ func c09Generate(repo string) string {
 								if v, ok := p.info.Uses[id].(*types.Var); ok && allVars[v] != nil {
 									assignedOutside[v] = true
 								}
+							} else if v := pkgVarAt(lhs); v != nil {
+								mutatedInPlace[v] = true // v.f = …, v[i] = …
 							}
 						}
 					case *ast.IncDecStmt:
 						if id, ok := s.X.(*ast.Ident); ok {
 							if v, ok := p.info.Uses[id].(*types.Var); ok && allVars[v] != nil {
 								assignedOutside[v] = true
+							}
+						} else if v := pkgVarAt(s.X); v != nil {
+							mutatedInPlace[v] = true
+						}
+					case *ast.UnaryExpr:
+						if s.Op == token.AND { // &v, &v.f: the variable's storage escapes
+							if v := pkgVarAt(s.X); v != nil {
+								mutatedInPlace[v] = true
+							}
+						}
+					case *ast.SliceExpr:
+						// v[:] of an array stored in the variable: the slice aliases the variable's storage
+						if tv, ok := p.info.Types[s.X]; ok {
+							if _, isArr := tv.Type.Underlying().(*types.Array); isArr {
+								if v := pkgVarAt(s.X); v != nil {
+									mutatedInPlace[v] = true
+								}
+							}
+						}
+					case *ast.SelectorExpr:
+						// v.M() with a pointer receiver on a non-pointer variable: implicit &v
+						if sel := p.info.Selections[s]; sel != nil && sel.Kind() == types.MethodVal {
+							if fo, ok := sel.Obj().(*types.Func); ok {
+								if sig, ok := fo.Type().(*types.Signature); ok && sig.Recv() != nil {
+									if _, ptr := sig.Recv().Type().(*types.Pointer); ptr {
+										if v := pkgVarAt(s.X); v != nil {
+											if _, isPtr := v.Type().Underlying().(*types.Pointer); !isPtr {
+												mutatedInPlace[v] = true
+												ptrMethodRecv[s.X] = true
+											}
+										}
+									}
+									// a method of an interface-typed package-level variable (a shared hasher,
+									// encoder, rand source ...): the object behind it is shared and may be stateful
+									if _, isIface := sig.Recv().Type().Underlying().(*types.Interface); isIface {
+										if id, ok := s.X.(*ast.Ident); ok {
+											if v, ok := p.info.Uses[id].(*types.Var); ok && allVars[v] != nil {
+												if _, vi := v.Type().Underlying().(*types.Interface); vi && !c09IsErrorType(v.Type()) {
+													mutatedInPlace[v] = true
+												}
+											}
+										}
+									}
+								}
 							}
 						}
 					}
@@ -266,10 +399,22 @@ func c09Generate(repo string) string {
 			vars[v] = vi
 			continue
 		}
-		mutable := assignedOutside[v]
+		mutable := assignedOutside[v] || mutatedInPlace[v]
 		switch v.Type().Underlying().(type) {
-		case *types.Map, *types.Slice, *types.Pointer:
+		case *types.Map, *types.Slice, *types.Pointer, *types.Chan:
 			mutable = true
+		case *types.Interface:
+			// a shared object behind an interface (hasher, encoder, random source ...); error
+			// values are immutable by convention
+			if !c09IsErrorType(v.Type()) {
+				mutable = true
+			}
+		case *types.Struct, *types.Array:
+			// a container stored in the variable itself (sync.Pool, sync.Map, bytes.Buffer, a
+			// struct with slice/map fields): shared state even though the variable is never assigned
+			if c09IsSyncType(v.Type()) || c09HoldsRefs(v.Type(), 0) {
+				mutable = true
+			}
 		}
 		if mutable {
 			vi.kind = "state"
@@ -570,14 +715,62 @@ func c09Generate(repo string) string {
 						markWrite(x.X)
 					}
 				}
+				markRoot := func(e ast.Expr) {
+					if _, plain := e.(*ast.Ident); plain {
+						return
+					}
+					if id := c09RootIdent(p.info, e); id != nil {
+						writePos[id] = true // a part of the variable's own storage is written / escapes
+					}
+				}
 				ast.Inspect(fd.Body, func(n ast.Node) bool {
 					switch s := n.(type) {
 					case *ast.AssignStmt:
 						for _, lhs := range s.Lhs {
 							markWrite(lhs)
+							markRoot(lhs)
 						}
 					case *ast.IncDecStmt:
 						markWrite(s.X)
+						markRoot(s.X)
+					case *ast.UnaryExpr:
+						if s.Op == token.AND {
+							if id := c09RootIdent(p.info, s.X); id != nil {
+								if v, ok := p.info.Uses[id].(*types.Var); ok && vars[v] != nil {
+									if _, isPtr := v.Type().Underlying().(*types.Pointer); !isPtr {
+										writePos[id] = true
+									}
+								}
+							}
+						}
+					case *ast.SliceExpr:
+						if tv, ok := p.info.Types[s.X]; ok {
+							if _, isArr := tv.Type.Underlying().(*types.Array); isArr {
+								if id := c09RootIdent(p.info, s.X); id != nil {
+									writePos[id] = true
+								}
+							}
+						}
+					case *ast.SelectorExpr:
+						// method of an interface-typed package-level variable: may modify the shared object
+						if sel := p.info.Selections[s]; sel != nil && sel.Kind() == types.MethodVal {
+							if id, ok := s.X.(*ast.Ident); ok {
+								if v, ok := p.info.Uses[id].(*types.Var); ok && vars[v] != nil {
+									if _, vi := v.Type().Underlying().(*types.Interface); vi {
+										writePos[id] = true
+									}
+								}
+							}
+						}
+						// pointer-receiver method on a package-level container: the callee may modify it
+						// (types of package sync / sync/atomic synchronise internally: recorded as reads)
+						if ptrMethodRecv[s.X] {
+							if id := c09RootIdent(p.info, s.X); id != nil {
+								if v, ok := p.info.Uses[id].(*types.Var); ok && !c09IsSyncType(v.Type()) {
+									writePos[id] = true
+								}
+							}
+						}
 					case *ast.CallExpr:
 						if id, ok := s.Fun.(*ast.Ident); ok && (id.Name == "delete" || id.Name == "clear") && len(s.Args) > 0 {
 							if _, isB := p.info.Uses[id].(*types.Builtin); isB {
